@@ -67,6 +67,11 @@ _REDUCERS = frozenset(
 )
 
 
+# functions that are the matrix product of their two operands
+_MATMUL_LIKE = frozenset(
+    f for f in (np.dot, getattr(np.linalg, "matmul", None)) if f is not None
+)
+
 # functions that move axes: the result is a field when the two leading axes stay where they are
 _AXIS_MOVERS = frozenset({np.swapaxes, np.moveaxis, np.transpose, np.rollaxis})
 
@@ -319,6 +324,13 @@ class FeArray(np.ndarray):
         # numpy's own implementations broadcast the plain way and must keep doing so: einsum
         # with optimize= reaches for np.multiply internally, which would otherwise come back
         # through __array_ufunc__ and be aligned a second time
+        if func in _MATMUL_LIKE and len(args) == 2 and not kwargs:
+            # np.dot(a, b) and np.linalg.matmul(a, b) on fields are the product at every Gauss
+            # point, as `a @ b` (numpy's own would contract the Gauss-point axis)
+            left, right = args
+            if isinstance(left, FeArray):
+                return FeArray.__matmul__(left, right)
+            return FeArray.__rmatmul__(right, left)
         feShape = _FeShape(args) or _FeShape(kwargs.values())
         # the field may be given by keyword: np.sum(a=field, axis=-1)
         ndim = _FeNdim(args) or _FeNdim(kwargs.values())
